@@ -90,7 +90,7 @@ func judge(class string, key []byte, o *fw.Obs) {
 	// the three inputs are windows into larger buffers (a wire message pk||sig||msg): they and the memory
 	// behind them must be what they were after the call
 	var sp fw.SpareSet
-	pubIn, msgIn, sigIn := sp.Of("public key", pub, 96), sp.Of("message", msg, 96), sp.Of("signature", sig, 96)
+	pubIn, msgIn, sigIn := sp.Of("public key", pub, 96), fw.NilIfEmpty(sp.Of("message", msg, 96), byte(len(key))), fw.NilIfEmpty(sp.Of("signature", sig, 96), byte(len(key)>>1))
 	if !o.Try("ed25519.Verify", func() { got = ed25519.Verify(ed25519.PublicKey(pubIn), msgIn, sigIn) }) {
 		return
 	}
